@@ -4,7 +4,7 @@ From Coq Require Import String List NArith ZArith Bool Permutation.
 From J5V.lib Require Import Outcome.
 From J5V.model Require Import ReflectDesc ReflectSchema Reflect Export.
 From J5V.gen Require ReflectGen.
-From J5V.proofs Require Import ReflectProofs ExportProofs.
+From J5V.proofs Require Import ReflectProofs ExportProofs ReflectInvProofs.
 Import ListNotations.
 
 Definition entries_of (st : sset) : list (ref * root) :=
@@ -41,10 +41,9 @@ Theorem C15_export_is_erasure : forall r, export_root r = erase_root r.
 Proof. exact export_root_erase. Qed.
 Print Assumptions C15_export_is_erasure.
 
-(* ---- lifted over the reference environment: PARTIAL with respect to C15_full_statement in that the
-   three facts about a reflected set (distinct names, formats the import knows, no dangling
-   reference) are hypotheses here; they are checked on every reflected set of the correspondence
-   stream (ExportCorr.check_export) but not yet derived from [reflect D fs = Ok S]. *)
+(* ---- lifted over the reference environment, for any set with distinct names, formats the import
+   knows and no dangling reference (C15_reflected_roundtrip derives these three facts for reflected
+   sets; they are also checked on every reflected set of the correspondence stream) *)
 Theorem C15_roundtrip_partial : forall S : list (ref * root),
   NoDup (map fst S) -> all_importable S -> closed S ->
   exists S', import_api (export_entries S) = ROk S' /\
@@ -53,6 +52,21 @@ Theorem C15_roundtrip_partial : forall S : list (ref * root),
     refs_resolved S' = true.
 Proof. exact export_import_roundtrip. Qed.
 Print Assumptions C15_roundtrip_partial.
+
+(* ---- the full statement for every well-formed descriptor set: enums non-empty, split names of
+   messages / enums / real oneofs pairwise distinct, JSON names of the fields and exposed oneofs of a
+   message distinct (wf_desc; the split-name part excludes the known name-collision finding, the rest
+   is what protoc guarantees). Every successful reflection exports, re-imports and re-exports to
+   exactly the same form, every reference resolved. *)
+Theorem C15_reflected_roundtrip : forall D fs S,
+  wf_desc D -> reflect D fs = Ok S ->
+  exists X, export_set S = Ok X /\
+  exists S', import_api X = ROk S' /\
+    (forall k x, In (k, x) X -> exists r', lookup S' k = Some (Linked r') /\ export_root r' = x) /\
+    (forall k, ~ In k (map fst X) -> lookup S' k = None) /\
+    refs_resolved S' = true.
+Proof. exact reflect_export_import_roundtrip. Qed.
+Print Assumptions C15_reflected_roundtrip.
 
 (* buildSchemas ranges over Go maps: the result does not depend on the order *)
 Theorem C15_order_independent : forall e1 e2,
